@@ -6,6 +6,6 @@ CONSTANTS
   MaxOps = 100
   KeepHist = FALSE
 VIEW view
-CONSTRAINT SmallWcQ
+CONSTRAINT Quick
 INVARIANTS TypeOK KnobsNeverChangeData PlainUntouched ResolveExists
 CHECK_DEADLOCK FALSE
